@@ -20,9 +20,10 @@ import (
 
 // ringLog is the router's logger: last lines kept for reports, never hashed.
 type ringLog struct {
-	lines []string
-	n     int
-	drops map[string]int // session id -> messages the router dropped to it (queue full)
+	lines      []string
+	n          int
+	drops      map[string]int // session id -> messages the router dropped to it (queue full)
+	authzDrops int            // refusals the router could not answer because the client's queue was full
 }
 
 var dropRe = regexp.MustCompile(`^!!! Dropped \S+ to (?:session|caller) (\d+): blocked`)
@@ -33,6 +34,9 @@ func (l *ringLog) add(s string) {
 		// build the log is off, so that it neither trips the detector nor
 		// orders the router's goroutines for it
 		return
+	}
+	if strings.HasPrefix(s, "!!! client blocked, could not send authz error") {
+		l.authzDrops++
 	}
 	if strings.HasPrefix(s, "!!! Dropped") {
 		if m := dropRe.FindStringSubmatch(s); m != nil {
